@@ -25,6 +25,22 @@ pub uninterp spec fn e_ns(e: &SystemTimeError) -> int;
 pub assume_specification[ SystemTime::duration_since ](this: &SystemTime, earlier: SystemTime) -> (r: Result<Duration, SystemTimeError>)
     ensures match r { Ok(d) => t_ns(*this) >= t_ns(earlier) && d_ns(d) == t_ns(*this) - t_ns(earlier),
                       Err(e) => t_ns(*this) < t_ns(earlier) && e_ns(&e) == t_ns(earlier) - t_ns(*this) };
+/// the comparison operators of SystemTime (`a > b`, `a <= b`, `a == b`, cmp) order instants as duration_since does: by t_ns, at full resolution
+pub open spec fn ord_of(a: int, b: int) -> Option<core::cmp::Ordering> {
+    if a < b { Some(core::cmp::Ordering::Less) } else if a == b { Some(core::cmp::Ordering::Equal) } else { Some(core::cmp::Ordering::Greater) }
+}
+pub broadcast proof fn ax_systemtime_ord(a: SystemTime, b: SystemTime)
+    ensures <SystemTime as vstd::std_specs::cmp::PartialOrdSpec>::obeys_partial_cmp_spec(),
+            #[trigger] vstd::std_specs::cmp::PartialOrdSpec::partial_cmp_spec(&a, &b) == ord_of(t_ns(a), t_ns(b)),
+{ admit(); }
+pub broadcast proof fn ax_systemtime_eq_obeys() ensures #[trigger] <SystemTime as vstd::std_specs::cmp::PartialEqSpec>::obeys_eq_spec() { admit(); }
+pub broadcast proof fn ax_systemtime_eq(a: SystemTime, b: SystemTime) ensures #[trigger] vstd::std_specs::cmp::PartialEqSpec::eq_spec(&a, &b) == (t_ns(a) == t_ns(b)) { admit(); }
+/// `i64::from(b)` / `u64::from(b)` for a bool b is 1 or 0 (std; vstd leaves From<bool> unspecified, so the result would be unconstrained)
+pub broadcast proof fn ax_i64_from_bool_obeys() ensures #[trigger] <i64 as vstd::std_specs::convert::FromSpec<bool>>::obeys_from_spec() { admit(); }
+pub broadcast proof fn ax_i64_from_bool(b: bool) ensures #[trigger] <i64 as vstd::std_specs::convert::FromSpec<bool>>::from_spec(b) == (if b { 1i64 } else { 0i64 }) { admit(); }
+pub broadcast proof fn ax_u64_from_bool_obeys() ensures #[trigger] <u64 as vstd::std_specs::convert::FromSpec<bool>>::obeys_from_spec() { admit(); }
+pub broadcast proof fn ax_u64_from_bool(b: bool) ensures #[trigger] <u64 as vstd::std_specs::convert::FromSpec<bool>>::from_spec(b) == (if b { 1u64 } else { 0u64 }) { admit(); }
+pub broadcast group model_ops { ax_systemtime_ord, ax_systemtime_eq_obeys, ax_systemtime_eq, ax_i64_from_bool_obeys, ax_i64_from_bool, ax_u64_from_bool_obeys, ax_u64_from_bool }
 pub assume_specification[ SystemTimeError::duration ](e: &SystemTimeError) -> (r: Duration) ensures d_ns(r) == e_ns(e);
 pub assume_specification[ Duration::as_secs ](d: &Duration) -> (r: u64) ensures r == d_ns(*d) / 1_000_000_000;
 pub broadcast proof fn ax_duration_range(d: Duration) ensures 0 <= #[trigger] d_ns(d) < 18446744073709551616 * 1_000_000_000 { admit(); }
